@@ -317,6 +317,25 @@ def linearLabel (numbering : List (String × Nat)) (ordered : List String) (g : 
   | none => none
   | some i => ordered[i]?
 
+/-- `gene_counts[g_id] += 1` on an insertion-ordered dict -/
+def bumpCount : List (String × Nat) → String → List (String × Nat)
+  | [], g => [(g, 1)]
+  | (k, v) :: rest, g => if k == g then (k, v + 1) :: rest else (k, v) :: bumpCount rest g
+
+/-- `GraphBasedModelConstructor.select_reference_gene`: `iter` lists, per intron of the transcript that some gene
+    owns, the iteration order of the set `intron_genes[intron]`; the dict is filled in that order -/
+def geneCounts (iter : List (List String)) : List (String × Nat) := iter.flatten.foldl bumpCount []
+
+/-- `sorted(gene_counts.items(), key=lambda x: (x[1], x[0]), reverse=True)`: `a` may stay before `b` -/
+def refGeneBefore (a b : String × Nat) : Bool := decide (b.2 < a.2) || (a.2 == b.2 && decide (b.1 ≤ a.1))
+/-- with the gene id dropped from the key (stable sort: ties keep the dict order) -/
+def refGeneBeforeBuggy (a b : String × Nat) : Bool := decide (b.2 ≤ a.2)
+
+def selectReferenceGene (iter : List (List String)) (strandOk : String → Bool) : Option String :=
+  ((isort refGeneBefore (geneCounts iter)).find? (fun p => strandOk p.1)).map (·.1)
+def selectReferenceGeneBuggy (iter : List (List String)) (strandOk : String → Bool) : Option String :=
+  ((isort refGeneBeforeBuggy (geneCounts iter)).find? (fun p => strandOk p.1)).map (·.1)
+
 def dedup : List String → List String
   | [] => []
   | x :: xs => if xs.contains x then dedup xs else x :: dedup xs
